@@ -330,7 +330,7 @@ func c12Run(sc c12Scenario, prefix []int, sigs []string, ready *grpc.ClientConn)
 			if !assocTS.IsZero() && !ts.Equal(assocTS) && !dead {
 				bad = append(bad, "recovery-timestamp-changes: the Recovery Time Stamp in a Heartbeat Response differs from the one of the association")
 			}
-			if sc.PeerHB != "early" && sc.Mode == "hb" {
+			if sc.PeerHB != "early" && sc.Mode == "hb" && !loose { // timing clause: not under schedules that starve the monitor for seconds
 				for _, g := range reqs {
 					if g.txs[0].typ == message.MsgTypeHeartbeatRequest && g.txs[0].at > peerHBAt[i] && g.txs[0].at < peerHBAt[i]+c12HB {
 						bad = append(bad, fmt.Sprintf("not-postponed: the peer's heartbeat was answered at %v, the agent's next own heartbeat went out at %v (< %v later)", peerHBAt[i], g.txs[0].at, c12HB))
